@@ -212,6 +212,8 @@ def props_of(key, layered=True):
     ps = set()
     if re.search(r'impl .*fmt :: (Debug|Display) for ', rest):
         return ps            # formatting for humans: no property is about it
+    if rest.startswith('mod verif_hooks'):
+        return ps            # my own cfg-guarded accessors: compiled out of the crate the properties are about
     for fre, cre, pr in RULES:
         if re.fullmatch(fre, rel) and re.fullmatch(cre, rest):
             ps |= set(pr.split())
